@@ -163,3 +163,13 @@
     (! (=> (and (<= j m) (<= m n)) (= (bits.allboolFrom b j n) (and (bits.allboolFrom b j m) (bits.allboolFrom b m n))))
        :pattern ((bits.allboolFrom b j m) (bits.allboolFrom b m n))))
   :lemmas (allboolFrom_elem allboolFrom_intro))
+
+; the bits of the two Keccak domain bytes (0x01 pre-FIPS Keccak, 0x06 SHA-3), least significant first
+(lemma bit_of_1
+  (and (= (bits.bit 1 0) 1) (= (bits.bit 1 1) 0) (= (bits.bit 1 2) 0) (= (bits.bit 1 3) 0)
+       (= (bits.bit 1 4) 0) (= (bits.bit 1 5) 0) (= (bits.bit 1 6) 0) (= (bits.bit 1 7) 0))
+  :reveal (bits.bit))
+(lemma bit_of_6
+  (and (= (bits.bit 6 0) 0) (= (bits.bit 6 1) 1) (= (bits.bit 6 2) 1) (= (bits.bit 6 3) 0)
+       (= (bits.bit 6 4) 0) (= (bits.bit 6 5) 0) (= (bits.bit 6 6) 0) (= (bits.bit 6 7) 0))
+  :reveal (bits.bit))
